@@ -359,6 +359,18 @@ def shapes(tier, warnings=('all', 'none')):
                 for order, text in (('user first', sa + sb), ('declarer first', sb + sa)):
                     add('%s renamed %d times in another schema of the file' % (kind, depth), '%s, %s' % (how.split(' b')[0] + (' (item)' if '%s' in how else ' (whole schema)'), order), text,
                         label='item of another schema of the same file used as attribute type')
+    # attribute references through SELECT-typed values: attribute offered by one / two / no member, directly and through nested selects
+    SEL = ('ENTITY ea;\n  x : INTEGER;\n  y : INTEGER;\nEND_ENTITY;\nENTITY eb;\n  x : INTEGER;\nEND_ENTITY;\nENTITY ec;\n  z : INTEGER;\nEND_ENTITY;\n'
+           'TYPE inner = SELECT (%s);\nEND_TYPE;\nTYPE outer = SELECT (%s);\nEND_TYPE;\nTYPE col = ENUMERATION OF (red, green);\nEND_TYPE;\n'
+           'ENTITY holder;\n  v : outer;\n  w : inner;\nWHERE\n  wr1 : %s;\nEND_ENTITY;\n')
+    for inner_m, outer_m, lab in (('ea, eb', 'inner', 'nested select as only member, attribute offered by two entities'),
+                                   ('ea, eb', 'inner, ec', 'nested select beside an entity, attribute offered by two entities'),
+                                   ('ea, ec', 'inner', 'nested select as only member, attribute offered by one entity'),
+                                   ('ea, eb', 'inner, col', 'nested select beside an enumeration'),
+                                   ('ea', 'inner', 'chain of single-member selects')):
+        for ref in ('v.x > 0', 'v.y > 0', 'v.z > 0', 'w.x > 0', 'v.nosuch > 0', '(v.x + w.x) > 0', "'P.EA' IN TYPEOF(v)"):
+            add('attribute %s through a select' % ref.split(' ')[0].strip('('), lab, wrap(SEL % (inner_m, outer_m, ref)),
+                label='attribute reference through a SELECT-typed value')
     # several files: a schema named in USE / REFERENCE FROM that is not in the input file is looked for in <schema>.exp
     def multi(main, mtext, **files):
         return '@@MAIN %s@@\n%s' % (main, mtext) + ''.join('@@FILE %s@@\n%s' % (n.replace('_exp', '.exp'), t) for n, t in sorted(files.items()))
